@@ -324,7 +324,11 @@ func init() {
 		return cxPanic(guard(func() string {
 			seen := map[string]bool{}
 			var order []string
-			for rep := 0; rep < 24; rep++ {
+			reps := 24
+			if f["kind"] == "4" {
+				reps = 4 // Format4.Encode runs a shortest-path search; CodeRange's order dependence is covered by cmapx.coderange
+			}
+			for rep := 0; rep < reps; rep++ {
 				var sub cmap.Subtable
 				m32 := cxParseMap32(f)
 				if f["kind"] == "4" {
@@ -378,6 +382,47 @@ func init() {
 			}
 			sort.Strings(order)
 			return strings.Join(order, "|")
+		}))
+	}
+	// the large format 12 family (subtables of 64 KiB and more): n isolated entries described by parameters
+	ops["cmapx.big12enc"] = func(f Fields) string {
+		return cxPanic(guard(func() string {
+			b := cxBigMap(f).Encode(uint16(f.Int("lang")))
+			var h uint64
+			for i, x := range b {
+				h += uint64(i+1) * (uint64(x) + 1)
+			}
+			return fmt.Sprintf("len=%d;hdr=%s;h=%d", len(b), hx(b[:16]), h)
+		}))
+	}
+	// direct predicate: the header fields of the written subtable are the ones the specification prescribes
+	ops["cmapx.big12hdr"] = func(f Fields) string {
+		return cxPanic(guard(func() string {
+			b := cxBigMap(f).Encode(uint16(f.Int("lang")))
+			u32 := func(o int) uint32 { return uint32(b[o])<<24 | uint32(b[o+1])<<16 | uint32(b[o+2])<<8 | uint32(b[o+3]) }
+			return fmt.Sprintf("format=%d;reserved=%d;length=%d;language=%d;numGroups=%d",
+				int(b[0])<<8|int(b[1]), int(b[2])<<8|int(b[3]), u32(4), u32(8), u32(12))
+		}))
+	}
+	// direct predicate: the subtable survives Table.Encode -> Decode -> Get / GetBest
+	ops["cmapx.big12rt"] = func(f Fields) string {
+		return cxPanic(guard(func() string {
+			enc := cxBigMap(f).Encode(uint16(f.Int("lang")))
+			t := cmap.Table{{PlatformID: 3, EncodingID: 10}: enc, {PlatformID: 0, EncodingID: 4}: enc}
+			dt, err := cmap.Decode(t.Encode())
+			if err != nil {
+				return "decode=" + cxErrClass(err)
+			}
+			codes := f.Ints("codes")
+			show := func(st cmap.Subtable, err error) string {
+				if err != nil {
+					return cxErrClass(err)
+				}
+				return cxShowSub(st, codes)
+			}
+			return "get310=" + show(dt.Get(cmap.Key{PlatformID: 3, EncodingID: 10})) +
+				";get04=" + show(dt.Get(cmap.Key{PlatformID: 0, EncodingID: 4})) +
+				";best=" + show(dt.GetBest())
 		}))
 	}
 	ops["cmapx.install"] = func(f Fields) string {
@@ -759,9 +804,46 @@ func cxGenTable(r *Rng, c *Ctx) cmap.Table {
 
 func cxTabArg(t cmap.Table) string { return cxShowTab(t) }
 
+func cxBigMap(f Fields) cmap.Format12 {
+	n, base, step, g0, mul := f.Int("n"), f.Int("base"), f.Int("step"), f.Int("g0"), f.Int("mul")
+	m := make(cmap.Format12, n)
+	for i := 0; i < n; i++ {
+		m[uint32(base+step*i)] = glyph.ID((g0 + mul*i) % 65536)
+	}
+	return m
+}
+
+// cxCaseBig12: format 12 subtables around and above 64 KiB (16 + 12·groups >= 65536 from 5460 groups on),
+// up to the 65536 entries of the property's domain; every entry is its own group (step >= 2).
+func cxCaseBig12(c *Ctx, r *Rng, k int) {
+	sizes := []int{5460, 65536, 5461, 6000, 5459, 21846, 43691}
+	n := sizes[k%len(sizes)]
+	step := Pick(r, []int{2, 3, 7, 16})
+	base := Pick(r, []int{0, 1, 0x10000, r.Intn(0x100000)})
+	if base+step*n > 0x7FFFFFF0 {
+		base = 0
+	}
+	g0, mul := r.Intn(65536), Pick(r, []int{0, 2, 3, 5, 65535, r.Intn(65536)})
+	lang := Pick(r, []int{0, 0, 1, r.Intn(0x10000)})
+	args := fmt.Sprintf("n=%d base=%d step=%d g0=%d mul=%d lang=%d", n, base, step, g0, mul, lang)
+	c.Stat("big12_groups", fmt.Sprint(n))
+	c.Case(Verdict, "cmapx.big12enc", args, true)
+	c.Case(Direct, "cmapx.big12hdr", args, true)
+	var codes []int
+	for _, i := range []int{0, 1, n / 2, n - 2, n - 1, r.Intn(n), r.Intn(n), r.Intn(n)} {
+		codes = append(codes, base+step*i, base+step*i+1)
+	}
+	codes = append(codes, 0, 0xFFFF, 0x10000, 0x10FFFF, base+step*n)
+	sort.Ints(codes)
+	c.Case(Direct, "cmapx.big12rt", fmt.Sprintf("%s codes=%s", args, ints(codes)), true)
+}
+
 func areaCmapx(c *Ctx) {
 	r := c.Rng
 	for i := 0; i < c.N; i++ {
+		if i%1000 == 0 {
+			cxCaseBig12(c, r, i/1000)
+		}
 		switch i % 4 {
 		case 0:
 			cxCase12(c, r)
@@ -1121,7 +1203,9 @@ func cxCaseRange(c *Ctx, r *Rng) {
 	}
 	c.Stat("coderange_map4", "n="+bucket(len(m4)))
 	c.Case(Direct, "cmapx.coderange", "kind=4 map="+arg(m4), true)
-	c.Case(Direct, "cmapx.installspec", "kind=4 map="+arg(m4), true)
+	if r.Chance(1, 3) {
+		c.Case(Direct, "cmapx.installspec", "kind=4 map="+arg(m4), true)
+	}
 	// format 6 (decodes into the Format4 map type) and format 0
 	first := Pick(r, []int{0, 1, 65, 0xFFF0, 0xFFFF, r.Intn(0x10000)})
 	count := Pick(r, []int{0, 1, 1, 2, 3, r.Range(0, 30)})
